@@ -149,6 +149,9 @@ func init() {
 				l = append(l, clampExt(r))
 			}
 			idl := maybeCorrupt(ids(l), 0.04)
+			if rng.Intn(25) == 0 { // the empty list (also together with negative layer counts)
+				idl = nil
+			}
 			H, V := int64(rng.Intn(5)), int64(rng.Intn(5))
 			if rng.Intn(20) == 0 {
 				H = -int64(rng.Intn(3)) - 1
